@@ -137,9 +137,10 @@ def _submodule_aliases(datas):
     res = {}
     for p in sorted(all_adts):
         segs = p.split("::")
-        if len(segs) != 4 or not segs[0] in ("spl_frontend", "lsp4spl") or segs[2] == "tests":
+        if len(segs) < 4 or not segs[0] in ("spl_frontend", "lsp4spl") or "tests" in segs:
             continue
-        crate_, mod_, sub_, name_ = segs
+        crate_, name_, sub_ = segs[0], segs[-1], segs[-2]
+        mod_ = "::".join(segs[1:-2])
         canonical = "::".join((crate_, mod_, name_))
         same_name = [q for q in all_adts if q.startswith(crate_ + "::" + mod_ + "::") and q.endswith("::" + name_)]
         if canonical in all_adts or len(same_name) != 1:
@@ -152,7 +153,7 @@ def _submodule_aliases(datas):
     all_fns = set()
     for d in datas:
         if d.get("crate") in ("spl_frontend", "lsp4spl"):
-            all_fns |= {b["p"] for b in d["bodies"] if b.get("k") == "fn"}
+            all_fns |= {b["p"] for b in d["bodies"] if b.get("k") in ("fn", "const", "static")}
     for p in sorted(all_fns):
         segs = p.split("::")
         if len(segs) < 4 or "tests" in segs:
@@ -175,7 +176,8 @@ _HOME_FNS = {("parser::utility", n_) for n_ in ("affected", "expect", "info", "i
      ("features::formatting", "format"), ("features::fold", "fold"), ("features::references", "rename"), ("features::references", "find"),
      ("features::references", "prepare_rename"), ("features::completion", "propose"), ("features::completion", "new_stmt"),
      ("features", "doc_cursor"), ("features", "get_doc"), ("features", "names_global_entity"), ("features", "get_local_table"),
-     ("document", "broker"), ("document", "to_text_changes"), ("io", "responder")}
+     ("document", "broker"), ("document", "to_text_changes"), ("io", "responder"),
+     ("features::semantic_tokens", "TOKEN_TYPES"), ("features::semantic_tokens", "TOKEN_MODIFIERS")}
 
 
 # (module, type) pairs the rules speak about by their path on the triaged tree
@@ -184,7 +186,8 @@ _HOME = {("tokens", "TokenStream"), ("tokens", "Token"), ("tokens", "TokenType")
          ("table", "LocalEntry"), ("table", "TypeEntry"), ("table", "ProcedureEntry"), ("table", "VariableEntry"), ("table", "DataType"),
          ("table", "SymbolTable"), ("ast", "Operator"), ("ast", "AstInfo"), ("ast", "Reference"), ("ast", "Identifier"),
          ("features", "Ident"), ("features", "DocumentCursor"), ("io", "Request"), ("io", "Response"), ("io", "PreparedResponse"),
-         ("io", "Message"), ("io", "Notification"), ("io", "LSCodec"), ("document", "DocumentRequest"), ("error", "ParserError")}
+         ("io", "Message"), ("io", "Notification"), ("io", "LSCodec"), ("document", "DocumentRequest"), ("error", "ParserError"),
+         ("features::semantic_tokens", "SemanticTokenType"), ("features::semantic_tokens", "SemanticTokenModifier")}
 
 
 class Crate:
